@@ -633,6 +633,15 @@ def str_cases(draw):
                 c[k] = True
         if fn in ('search', 'searchAll') and draw(st.integers(0, 3)) > 0:
             c['sel'] = draw(st.sampled_from(sorted(SELECTORS)))
+            if fn == 'searchAll' and draw(st.integers(0, 2)) == 0:
+                # selectors whose result is consumed after the next match
+                # was made, over subjects with several different matches
+                c['sel'] = draw(st.sampled_from(['lazy-g2', 'lazy-named']))
+                c['p'] = draw(st.sampled_from(
+                    ['(a)(b|c)?', '(?P<x>[ab])(c|-)?', '(\\w)(\\w)',
+                     '(?P<x>a)|(b)', '([abc])([abc])?(?P<y>-)?']))
+                c['s'] = draw(st.sampled_from(
+                    ['ab ac a', 'ac-bc b-', 'abcabc', 'a b ab', 'cb-ab-a']))
         if fn == 'replaceBy':
             c['sel'] = draw(st.sampled_from(sorted(REPL_SEL)))
         if fn in ('regex-split',) and draw(st.booleans()):
